@@ -189,7 +189,18 @@ def run_impl(case):
     s_first = [float(np.asarray(f.values).flat[0]) for f in src]
     r_first = [float(np.asarray(f.values).flat[0]) for f in ref]
     if real:
-        out = [[0 if a == b else 1 for b in r_first] for a in s_first]
+        # external fact "outcome of the predicate on this pair", measured with the real DefaultEquality on the very
+        # arrays (equal palette value and equal shape -> pass; point field vs cell field of the same name -> shapes differ)
+        from fieldcompare.predicates import DefaultEquality
+        s_vals = [np.asarray(f.values) for f in src]
+        r_vals = [np.asarray(f.values) for f in ref]
+
+        def _outcome(a, b):
+            try:
+                return 0 if DefaultEquality()(a, b) else 1
+            except Exception:
+                return 2
+        out = [[_outcome(a, b) for b in r_vals] for a in s_vals]
     else:
         out = case["out"]
         if len(out) != len(sn) or any(len(r) != len(rn) for r in out):
